@@ -55,13 +55,13 @@ class C03(diffcheck.DiffProp):
     ]
 
     def model_input(self, case, out):
-        if not out or len(out) < 7 or out[0] not in (1, 2, 3, 4, 5, 6):
+        if not out or len(out) < 7 or out[0] not in (1, 2, 3, 4, 5, 6, 7):
             return [case[1] if len(case) > 1 and case[1] in (0, 1) else 0, 0]
         n = out[6]
         return [out[1], n] + out[7:7 + 3 * n]
 
     def model_expected(self, case, out):
-        if not out or len(out) < 7 or out[0] not in (1, 2, 3, 4, 5, 6):
+        if not out or len(out) < 7 or out[0] not in (1, 2, 3, 4, 5, 6, 7):
             return [1, 0, 0]
         _, evs = parse(out)
         return [1, len(evs), sum(1 for e in evs if e[0] == 22)]
@@ -99,6 +99,11 @@ class C03(diffcheck.DiffProp):
                 return ("%s runtime driven by a host event loop (run / flush / sleep on the descriptor / poll(0)), wake "
                         "source %s: in %d of %d rounds the loop slept its whole %d ms watchdog although a task was "
                         "runnable / a wake had been issued: lost wake-up" % (d, src, r4, r2, 1500))
+        elif mode == 7:
+            if r4 != 0 or r2 != r1:
+                return ("%s runtime: in %d of %d rounds a task woken from another thread WHILE it was being polled (that "
+                        "poll itself caused by a cross-thread wake) was not polled again within 1.5 s after the wake() had "
+                        "returned: the wake-up was dropped, not coalesced" % (d, r4 + (r1 - r2), r1))
         elif mode == 6:
             if r2 != 1:
                 return ("%s runtime, ring capacity %d: a burst of %d receives that completed at once was not "
